@@ -38,7 +38,7 @@ func Merge[S, A any](fss func(S) S, fsa func(S) A) fp.StateT[S, A] {
 }
 
 func Put[S any](s S) fp.StateT[S, fp.Unit] {
-	return func(s S) (fp.Try[fp.Unit], S) {
+	return func(S) (fp.Try[fp.Unit], S) {
 		return unit.Success, s
 	}
 }
